@@ -41,9 +41,6 @@ structure BlockOK (cfg : Cfg) (nd : Node) (b : Block) : Prop where
   dMig : Sorted b.diff.migrated
   dDefs : Sorted b.classes
   depNotSys : ∀ a c, Map.get b.diff.deployed a = some c → isSys a = false
-  /-- a contract deployed by the block is listed with its final class only -/
-  depRep : ∀ a c, Map.get b.diff.deployed a = some c → Map.get b.diff.replaced a = none
-  nodup : (b.diff.declV0 ++ Map.keys b.diff.declV1).Nodup
   known0 : ∀ c ∈ b.diff.declV0, (Map.get nd.st.classes c).isSome = true ∨ (Map.get b.classes c).isSome = true
   decl1 : ∀ c h, Map.get b.diff.declV1 c = some h →
     Map.get nd.st.classes c = none ∧ ∃ d, Map.get b.classes c = some d ∧ d.sierra = true
